@@ -52,6 +52,7 @@ EncWith(pt, ks, j, m, order, comp) == IF j > Len(ks) THEN <<"none">>
                           ELSE IF j = Len(ks) THEN Encrypt(pt, BFromBE(ks[j]), m, order, comp)
                           ELSE IF Encrypt(pt, BFromBE(ks[j]), m, order, comp)[1] = "retry" THEN EncWith(pt, ks, j+1, m, order, comp) ELSE <<"early">>
 EncClass(e, m) == e.order \o (IF e.compressed = 1 THEN ".comp" ELSE ".uncomp") \o (IF Len(m) % 32 = 0 THEN ".klen%32=0" ELSE IF Len(m) < 32 THEN ".short" ELSE ".long")
+                  \o (IF Len(e.ks) >= 2 /\ Encrypt(Pk(e), BFromBE(e.ks[1]), m, e.order, e.compressed = 1)[1] = "retry" THEN ".retry" ELSE "")
 Enc3(e, m, r) == Stay /\ tlast' = Verdict(e, e.outcome = "ok" /\ r[1] = "ok" /\ e.ct = r[2], EncClass(e, m),
                                           IF Crash(e) THEN e.outcome ELSE IF e.outcome # "ok" THEN "encrypt-error" ELSE IF r[1] # "ok" THEN "nonce-handling" ELSE "wrong-ciphertext")
 Enc2(e, m) == Enc3(e, m, EncWith(Pk(e), e.ks, 1, m, e.order, e.compressed = 1))
@@ -177,6 +178,10 @@ EcAffine1(e) == IF ValidInput(e.p) /\ Denote(e.p) # Inf THEN Stay /\ tlast' = Ve
                 ELSE Stay /\ tlast' = Verdict(e, ~Crash(e), "affine.O-or-invalid", e.outcome)
 EcValid1(e) == Stay /\ tlast' = Verdict(e, e.outcome = "ok" /\ (e.valid = 1) = (JZ(e.p) = BZero \/ (JCanon(e.p) /\ JacOnCurve(e.p))),
                                          IF JZ(e.p) = BZero THEN "valid.O" ELSE IF JCanon(e.p) /\ JacOnCurve(e.p) THEN "valid.on" ELSE "valid.off", IF Crash(e) THEN e.outcome ELSE "wrong-validity")
+\* the AFFINE validity predicate: reads (x, y) only
+EcValidA1(e) == Stay /\ tlast' = Verdict(e, e.outcome = "ok" /\ (e.valid = 1) = (JCanon(e.p) /\ C!OnCurve(<<FromMont(JX(e.p)), FromMont(JY(e.p))>>)),
+                                          IF ~JCanon(e.p) THEN "valid-affine.noncanonical" ELSE IF FromMont(JX(e.p)) = BZero THEN "valid-affine.x=0"
+                                          ELSE IF C!OnCurve(<<FromMont(JX(e.p)), FromMont(JY(e.p))>>) THEN "valid-affine.on" ELSE "valid-affine.off", IF Crash(e) THEN e.outcome ELSE "wrong-validity")
 \* field ops on stored (Montgomery) representatives; operands canonical
 A(e) == BFromBE(e.a)
 Bv(e) == BFromBE(e.b)
@@ -226,6 +231,7 @@ Step(e) == IF e.op = "sm2.verify" THEN Ver1(e)
            ELSE IF e.op = "ec.gmul" THEN EcGmul1(e)
            ELSE IF e.op = "ec.affine" THEN EcAffine1(e)
            ELSE IF e.op = "ec.valid" THEN EcValid1(e)
+           ELSE IF e.op = "ec.valid_affine" THEN EcValidA1(e)
            ELSE IF e.op = "fp.op" THEN Fp1(e)
            ELSE IF e.op = "fn.op" THEN Fn1(e)
            ELSE IF e.op = "ec.table" THEN Tab1(e)
